@@ -21,6 +21,8 @@ type Sink struct {
 	Prefix     int  // bytes accepted by a failing write (0 = none)
 	failed     bool
 	Fired      int
+	FaultAt       []int // len(Data) when each failing write arrived
+	FaultAccepted []int // bytes each failing write still accepted
 }
 
 func (s *Sink) Write(p []byte) (int, error) {
@@ -32,6 +34,8 @@ func (s *Sink) Write(p []byte) (int, error) {
 		s.failed = true
 		s.Fired++
 		n := min(s.Prefix, len(p))
+		s.FaultAt = append(s.FaultAt, len(s.Data))
+		s.FaultAccepted = append(s.FaultAccepted, n)
 		s.Data = append(s.Data, p[:n]...)
 		return n, ErrInjected
 	}
